@@ -2,10 +2,12 @@
     are ANY byte-wise (hence any sector-wise) mixture of the old and the new table decodes every entry on which
     old and new agree to the common value, including FAT12 entries that share a byte with their neighbour or
     straddle a sector boundary; FAT16 likewise (FAT32 entries are four aligned bytes, same argument).  So the chains
-    of files an operation does not touch survive a torn FAT flush.  The directory half and the composition
-    (C12_confine) are checked by remounting the real image at every crash point. *)
-From Coq Require Import ZArith List Bool.
-From PyFatV Require Import Base.Bytes Base.PyEnv Gen.Pure Model.Codec Proofs.Session.
+    of files an operation does not touch survive a torn FAT flush.  The data half: every device write of a file-data
+    write addresses a cluster of the file's own chain or a cluster that was free, so ANY subset of those writes (any
+    crash point, any reordering) leaves every cluster of every other chain as it was.  The directory half and the
+    composition over whole operations (C12_confine) are checked by remounting the real image at every crash point. *)
+From Coq Require Import ZArith List Bool Lia.
+From PyFatV Require Import Base.Bytes Base.PyEnv Gen.Pure Model.Codec Model.Dir Model.FS Proofs.Session Proofs.Device Proofs.DirCodec Proofs.DirState Proofs.Chains Proofs.FileData.
 Import ListNotations.
 Open Scope Z_scope.
 
@@ -24,3 +26,13 @@ Theorem C12_fatmix16 : forall bs1 bs2 mix i,
   spec_fat_entry 16 mix i = spec_fat_entry 16 bs1 i.
 Proof. exact fat16_mix. Qed.
 Print Assumptions C12_fatmix16.
+
+Theorem C12_data_crash : forall s data c s' ch,
+  dev_ok (s_dev s) -> geom_ok s -> vt (ft s) -> 0 <= s_hint s ->
+  chain s c = (ch, true) -> Forall (inside s) ch -> vol_ok s ->
+  write_data_to_cluster s data c false = Ok s' ->
+  exists l, s_log s' = l ++ s_log s /\
+    forall keep y, 2 <= y -> ~ In y ch -> nthZ (s_fat s) y <> 0 -> inside s y ->
+      dread (apply_some (s_dev s) l keep) (s_dsize s) (cluster_addr s y) (bpc s) = rd s (cluster_addr s y) (bpc s).
+Proof. exact data_crash. Qed.
+Print Assumptions C12_data_crash.
